@@ -41,7 +41,8 @@ GEN = {
     "CMT": "CREATE TABLE c1 (z int); -- note",
     "KW": "CREATE TABLE kw (start int, cache int, comment varchar(3), location int);",
     "ALTTAB": "CREATE TABLE a1 (p int, q int);",
-    "ALTTAB2": "CREATE TABLE s7.a1 (p int, q int, r int);",  # same name in another schema: the ALTER/INDEX statements below name a1 only
+    "ALTTAB2": "CREATE TABLE s7.a1 (p int, q int, r int);",
+    "ALTTAB3": "CREATE TABLE a$1 (p int, q int, t int);",  # a name that differs from a1 only by a non-word character  # same name in another schema: the ALTER/INDEX statements below name a1 only
     "SET": "SET x = 1;",
     "DROP": "DROP TABLE zz;",
     "BLK": "/* a block\n comment */",
